@@ -64,6 +64,18 @@ def innermost_repo_frame(tb) -> Optional[str]:
     return best
 
 
+# dependency (linear_operator) code paths with known defects of their own; an exception that passes through one of them is tagged
+# "|via:<function>" in its class so that known_findings.json can name exactly that path and nothing else
+DEPENDENCY_PATHS = ("add_low_rank",)
+
+
+def via_dependency_path(tb) -> str:
+    for fs in traceback.extract_tb(tb):
+        if "linear_operator" in fs.filename and fs.name in DEPENDENCY_PATHS:
+            return f"|via:{fs.name}"
+    return ""
+
+
 def innermost_frame(tb) -> str:
     fss = traceback.extract_tb(tb)
     if not fss:
@@ -132,7 +144,7 @@ class Ctx:
                     self.subcheck,
                     name,
                     "exception",
-                    f"{c}|{type(e).__name__}@{where}",
+                    f"{c}|{type(e).__name__}@{where}{via_dependency_path(e.__traceback__)}",
                     f"{type(e).__name__}: {str(e)[:400]}",
                 )
             )
